@@ -111,3 +111,76 @@ func ServiceChain(s *Def) []*Def {
 	}
 	return out
 }
+
+// KnownRejectShapes reports whether the program has one of the input shapes on
+// which the front end or the Go backend is known to fail on a valid program
+// (listed findings of C05 and C06):
+//   - an identifier inside a literal of a struct that is defined in another
+//     file than the one that writes the literal (looked up in the wrong file);
+//   - a constant naming an enum member through a typedef chain that crosses
+//     more file boundaries than a binding can express.
+func KnownRejectShapes(p *Program) (foreignStructLitIdent, enumViaTypedefFar bool) {
+	var walk func(file *File, t *Type, v *Value, foreign bool, depth int)
+	walk = func(file *File, t *Type, v *Value, foreign bool, depth int) {
+		if t == nil || v == nil || depth > 40 {
+			return
+		}
+		if v.Kind == VIdent && !v.IsBoolKw {
+			if foreign {
+				foreignStructLitIdent = true
+			}
+			if v.Via != nil && viaFar(file, v.Via) {
+				enumViaTypedefFar = true
+			}
+			return
+		}
+		ft := t.Final()
+		switch {
+		case ft.Ref != nil && ft.Ref.Kind.IsStructLike():
+			if v.Kind != VMap {
+				return
+			}
+			inner := foreign || ft.Ref.File != file
+			for i, k := range v.Keys {
+				if i >= len(v.List) || k == nil || k.Kind != VLit {
+					continue
+				}
+				for _, fl := range ft.Ref.Fields {
+					if fl.Name == k.Lit.Text() {
+						walk(file, fl.Type, v.List[i], inner, depth+1)
+					}
+				}
+			}
+		case ft.Base == "list" || ft.Base == "set":
+			for _, e := range v.List {
+				walk(file, ft.Elem, e, foreign, depth+1)
+			}
+		case ft.Base == "map":
+			for i, k := range v.Keys {
+				walk(file, ft.Key, k, foreign, depth+1)
+				if i < len(v.List) {
+					walk(file, ft.Elem, v.List[i], foreign, depth+1)
+				}
+			}
+		}
+	}
+	for _, f := range p.Files {
+		for _, d := range f.Defs {
+			if d.Kind == KConst {
+				walk(f, d.Type, d.Value, false, 0)
+			}
+			for _, fl := range d.Fields {
+				walk(f, fl.Type, fl.Default, false, 0)
+			}
+			for _, fn := range d.Funcs {
+				for _, fl := range fn.Args {
+					walk(f, fl.Type, fl.Default, false, 0)
+				}
+				for _, fl := range fn.Throws {
+					walk(f, fl.Type, fl.Default, false, 0)
+				}
+			}
+		}
+	}
+	return
+}
